@@ -141,8 +141,14 @@ def _custom_fun(name):
     raise ValueError(name)
 
 
+def _T():
+    """the module rsatoolbox.rdm.transform (the package attribute of that name is the function transform)"""
+    import importlib
+    return importlib.import_module('rsatoolbox.rdm.transform')
+
+
 def _apply(tname, rdms, par=None):
-    import rsatoolbox.rdm.transform as T
+    T = _T()
     if tname == 'rank':
         return T.rank_transform(rdms) if par is None else T.rank_transform(rdms, method=par)
     if tname == 'sqrt':
@@ -362,6 +368,7 @@ def orc_minmax(case):
             + rs.uniform(-50, 50, (case['n_rdm'], 1))
         if case.get('ties'):
             vectors = np.round(vectors, 0)
+            vectors[:, 0] = vectors.min(axis=1) - 1.0      # never constant
     n_rdm, n_cond = vectors.shape[0], case['n_cond']
     for r in range(n_rdm):
         if len(set(vectors[r].tolist())) < 2:
@@ -472,6 +479,7 @@ def _geodesic_vectors(case):
     v = rs.uniform(-1.0, 4.0, (case['n_rdm'], _n_pairs(case['n_cond']))) * rs.uniform(0.1, 20, (case['n_rdm'], 1))
     if case.get('ties'):
         v = np.round(v)
+        v[:, 0] = v.min(axis=1) - 1.0      # never constant
     return v
 
 
@@ -514,7 +522,7 @@ def orc_geodesic_guard(case):
 @oracle('C17/custom')
 def orc_custom(case):
     """case: seed, n_rdm, n_cond, fun, measure, desc, nan"""
-    import rsatoolbox.rdm.transform as T
+    T = _T()
     rs = np.random.RandomState(case['seed'])
     n_rdm, n_cond = case['n_rdm'], case['n_cond']
     vectors = np.round(rs.uniform(-3, 3, (n_rdm, _n_pairs(n_cond))), 1)
@@ -626,7 +634,7 @@ def _spec_sim(method, x, y):
 
 def _monotone(name, v):
     """a strictly increasing map applied to a vector array; 'lib:*' = a library transform -> returns an RDMs object"""
-    import rsatoolbox.rdm.transform as T
+    T = _T()
     if name == 'id':
         return v.copy()
     if name.startswith('scale:'):
@@ -765,7 +773,7 @@ def _sigma(case, n_cond):
 def orc_scale_affine(case):
     """case: seed, n_cond, n_rdm [n1,n2], method, sigma (none/vector/matrix), a1, b1, a2, b2, via (array / lib), n_nan.
     cosine-type: x -> a*x (b must be 0); correlation-type: x -> a*x + b; a > 0"""
-    import rsatoolbox.rdm.transform as T
+    T = _T()
     from rsatoolbox.rdm import compare
     rs = np.random.RandomState(case['seed'])
     n_cond = case['n_cond']
@@ -882,6 +890,19 @@ def _rows_with_missing(m, max_nan):
     return rows
 
 
+def _seeded_rows(seed, n_cond, n_rdm):
+    """random level rows (levels 0..5, so many ties) for n_cond conditions, each RDM missing 0-3 entries of its own"""
+    rs = np.random.RandomState(seed)
+    m = _n_pairs(n_cond)
+    rows = []
+    for _ in range(n_rdm):
+        row = [int(x) for x in rs.randint(0, 6, m)]
+        for pos in rs.permutation(m)[:rs.randint(0, 4)]:
+            row[int(pos)] = None
+        rows.append(row)
+    return rows
+
+
 def _stacks(rows, size, seed):
     """deterministically shuffled rows, chunked into stacks (so RDMs of one stack miss different entries)"""
     rs = np.random.RandomState(seed)
@@ -899,8 +920,9 @@ def tier_c(run, thorough):
     # ---- rank_transform ------------------------------------------------------------------------------------------
     bd = Bounded(run, 'C17/rank', 'C17/rank_transform/oracle/ranks-among-non-missing',
                  'ALL weak orders of 3 entries (<= 2 missing) and of 6 entries (%s), in stacks of 3 RDMs on different value '
-                 'ranges, x 5 tie methods + default argument; source names / descriptor kinds rotated'
-                 % ('<= 2 missing' if thorough else 'none missing; plus 400 seeded rows with 1-2 missing'),
+                 'ranges, x 5 tie methods + default argument; plus %d seeded stacks (1-4 RDMs, 5-7 conditions, 6 levels, 0-3 missing each) x 5 '
+                 'tie methods; source names / descriptor kinds rotated'
+                 % ('<= 2 missing' if thorough else 'none missing; plus 400 seeded rows with 1-2 missing', 300 if thorough else 40),
                  exhaustive=True, function='rank_transform')
     i = 0
     for n_cond, rows in ((3, rows3), (4, rows6 + rows6_some_nan)):
@@ -915,13 +937,23 @@ def tier_c(run, thorough):
                                         desc=DESC_KINDS[i % len(DESC_KINDS)]),
                          ('with-missing' if has_nan else 'complete') + (',default-method' if method in (None, 'average') else ',tie-method'),
                          function='rank_transform')
+    for seed in range(300 if thorough else 40):
+        n_cond = 5 + seed % 3
+        st = _seeded_rows(seed, n_cond, 1 + seed % 4)
+        has_nan = any(x is None for r in st for x in r)
+        for method in RANK_METHODS:
+            bd.check(orc_rank, dict(n_cond=n_cond, rows=st, method=method, measure=MEASURES[seed % len(MEASURES)],
+                                    desc=DESC_KINDS[seed % len(DESC_KINDS)]),
+                     ('with-missing' if has_nan else 'complete') + (',default-method' if method == 'average' else ',tie-method'),
+                     function='rank_transform')
     bd.done()
     bds.append(bd)
 
     # ---- sqrt / positive -----------------------------------------------------------------------------------------
     bd = Bounded(run, 'C17/elementwise', 'C17/sqrt_transform,positive_transform/oracle/elementwise-map',
                  'ALL weak orders of 3 entries (<= 2 missing) and of 6 entries (%s) over three palettes with negatives, zero, '
-                 '1e6; stacks of 3; sqrt and positive' % ('<= 2 missing' if thorough else 'none missing, + 400 seeded rows with missing'),
+                 '1e6; stacks of 3; plus %d seeded stacks (1-4 RDMs, 5-7 conditions, 0-3 missing each); sqrt and positive'
+                 % ('<= 2 missing' if thorough else 'none missing, + 400 seeded rows with missing', 300 if thorough else 40),
                  exhaustive=True, function='sqrt_transform')
     i = 0
     for n_cond, rows in ((3, rows3), (4, rows6 + rows6_some_nan)):
@@ -931,6 +963,12 @@ def tier_c(run, thorough):
                 bd.check(orc_elementwise, dict(which=which, n_cond=n_cond, rows=st, measure=MEASURES[i % len(MEASURES)],
                                                desc=DESC_KINDS[i % len(DESC_KINDS)]),
                          which, function=which + '_transform')
+    for seed in range(300 if thorough else 40):
+        n_cond = 5 + seed % 3
+        for which in ('sqrt', 'positive'):
+            bd.check(orc_elementwise, dict(which=which, n_cond=n_cond, rows=_seeded_rows(seed, n_cond, 1 + seed % 4),
+                                           measure=MEASURES[seed % len(MEASURES)], desc=DESC_KINDS[seed % len(DESC_KINDS)]),
+                     which, function=which + '_transform')
     bd.done()
     bds.append(bd)
 
@@ -1052,7 +1090,7 @@ def tier_c(run, thorough):
                   'lib:rank-ordinal'],
         'tiny': ['id', 'scale:3.7', 'scale:1e6', 'cbrt', 'sqrt', 'lib:sqrt', 'lib:cbrt', 'lib:positive', 'lib:rank-min', 'lib:minmax'],
     }
-    n_seed = 3 if thorough else 1
+    n_seed = 8 if thorough else 1
     bd = Bounded(run, 'C17/rank-invariance', 'C17/compare/oracle/rank-measures-invariant-under-increasing-maps',
                  '5 rank-based methods x 5 kinds of data (ties+negatives, non-negative ties, tie-free, values 1e-9 apart, 1e-13 scale) '
                  'x every applicable map of %d (scalings 1e-13..1e6, shifts, cbrt, cube, exp, arctan, sqrt, library sqrt / positive / '
